@@ -1,0 +1,61 @@
+// SPDX-FileCopyrightText: 2026 The Pion community <https://pion.ly>
+// SPDX-License-Identifier: MIT
+
+//go:build verif
+
+package ice
+
+import (
+	"errors"
+	"net/netip"
+)
+
+// Exports for the external verification harness (/verif), area Cand (C16).
+// Built only with -tags verif.
+
+// VerifCandErrClass names the sentinel error a candidate constructor / UnmarshalCandidate /
+// AddExtension error wraps ("addr" for the unwrapped netip.ParseAddr error).
+func VerifCandErrClass(err error) string {
+	switch {
+	case err == nil:
+		return "nil"
+	case errors.Is(err, errParseFoundation):
+		return "foundation"
+	case errors.Is(err, errAttributeTooShortICECandidate):
+		return "too_short"
+	case errors.Is(err, errParseComponent):
+		return "component"
+	case errors.Is(err, errParsePriority):
+		return "priority"
+	case errors.Is(err, errParsePort):
+		return "port"
+	case errors.Is(err, ErrUnknownCandidateTyp):
+		return "typ"
+	case errors.Is(err, errParseRelatedAddr):
+		return "reladdr"
+	case errors.Is(err, errParseExtension):
+		return "extension"
+	case errors.Is(err, errParseTCPType):
+		return "tcptype"
+	case errors.Is(err, ErrDetermineNetworkType):
+		return "nettype"
+	default:
+		return "addr"
+	}
+}
+
+// VerifAddrInfo reports what the candidate code uses of netip.ParseAddr(s): success, whether the
+// address is IPv4 after Unmap (determineNetworkType, parseAddr), and the textual identity of the
+// address addrEqual compares (ipAddrToNetIP: unmapped, zone kept only for link-local IPv6).
+func VerifAddrInfo(s string) (ok bool, is4 bool, key string) {
+	a, err := netip.ParseAddr(s)
+	if err != nil {
+		return false, false, ""
+	}
+	n, err := ipAddrToNetIP(a.AsSlice(), a.Zone())
+	if err != nil {
+		return false, false, ""
+	}
+
+	return true, a.Unmap().Is4(), n.String()
+}
